@@ -38,6 +38,10 @@ func (si SuInt64) Compare(other Value) int {
 	if i2, ok := d2.IfInt(); ok {
 		return cmp.Compare(si.int64, int64(i2)) // exact, agrees with Equal
 	}
+	if d2.IsInf() || d2.Exp() > 18 {
+		// beyond the int64 range (IfInt accepts every integer that fits)
+		return -cmp.Compare(d2.Sign(), 0)
+	}
 	dn, _ := si.ToDnum()
 	return dnum.Compare(dn, d2.Dnum)
 }
